@@ -79,6 +79,9 @@ func decodableEscape(codePoint int) bool {
 		return false
 	case codePoint == '"', codePoint == '\\':
 		return false
+	case codePoint >= '0' && codePoint <= '9':
+		// written raw, a digit would extend a preceding \0 or octal escape: "\0\x31" is not "\01"
+		return false
 	case codePoint >= 0xD800 && codePoint <= 0xDFFF:
 		return false
 	case codePoint == 0x2028, codePoint == 0x2029:
